@@ -3,6 +3,7 @@ package crypto
 import (
 	"context"
 	"crypto/rand"
+	"encoding/binary"
 	"fmt"
 	"github.com/allegro/bigcache/v3"
 	oasisEd25519 "github.com/oasisprotocol/curve25519-voi/primitives/ed25519"
@@ -197,21 +198,20 @@ func (b *BatchVerifier) verifyAll(idx int) (badIndices []int) {
 }
 
 // Key() returns a unique string key for the cache
+// NOTE: every part is length prefixed - a plain concatenation is ambiguous (bytes may move between the message and
+// the signature without changing the key), so a different (message, signature) pair could hit the entry of a verified one
 func (bt *BatchTuple) Key() string {
 	// get the public key bytes
 	pk := bt.PublicKey.Bytes()
 	// calculate the total length of the key
-	totalLen := len(pk) + len(bt.Message) + len(bt.Signature)
-	// create the buffer and offset variables
-	b, offset := make([]byte, totalLen), 0
-	// copy pubkey in first part
-	copy(b[offset:], pk)
-	offset += len(pk)
-	// copy message in second part
-	copy(b[offset:], bt.Message)
-	offset += len(bt.Message)
-	// copy signature in third part
-	copy(b[offset:], bt.Signature)
+	totalLen := 3*4 + len(pk) + len(bt.Message) + len(bt.Signature)
+	// create the buffer
+	b := make([]byte, 0, totalLen)
+	// for each part: 4 byte big endian length followed by the bytes
+	for _, part := range [][]byte{pk, bt.Message, bt.Signature} {
+		b = binary.BigEndian.AppendUint32(b, uint32(len(part)))
+		b = append(b, part...)
+	}
 	// return string version
 	return string(b)
 }
